@@ -35,8 +35,25 @@ func overlayFromDir(dir, repo string, ov map[string][]byte) error {
 	})
 }
 
-func load(repo string, overlayDirs []string, patterns []string) (*ssa.Program, []*ssa.Package, error) {
+func load(repo string, overlayDirs []string, patterns []string, overlayJSON string) (*ssa.Program, []*ssa.Package, error) {
 	ov := map[string][]byte{}
+	if overlayJSON != "" {
+		b, err := os.ReadFile(overlayJSON)
+		if err != nil {
+			return nil, nil, err
+		}
+		var oj struct{ Replace map[string]string }
+		if err := json.Unmarshal(b, &oj); err != nil {
+			return nil, nil, err
+		}
+		for dst, src := range oj.Replace {
+			c, err := os.ReadFile(src)
+			if err != nil {
+				return nil, nil, err
+			}
+			ov[dst] = c
+		}
+	}
 	for _, d := range overlayDirs {
 		if err := overlayFromDir(d, repo, ov); err != nil {
 			return nil, nil, err
@@ -71,6 +88,7 @@ func main() {
 	params := flag.String("params", "", "k=v,k=v harness parameters")
 	verbose := flag.Bool("v", false, "verbose")
 	asserts := flag.String("asserts", "", "comma separated assertion-id prefixes to check (default all)")
+	overlayJSON := flag.String("overlayjson", "", "go build overlay JSON with further file replacements (dependency hook points)")
 	cpuprof := flag.String("cpuprofile", "", "write cpu profile")
 	flag.Parse()
 	debug.SetGCPercent(800)
@@ -81,7 +99,7 @@ func main() {
 	}
 
 	t0 := time.Now()
-	prog, spkgs, err := load(*repo, strings.Split(*overlay, ","), strings.Split(*pkgsFlag, ","))
+	prog, spkgs, err := load(*repo, strings.Split(*overlay, ","), strings.Split(*pkgsFlag, ","), *overlayJSON)
 	if err != nil {
 		fmt.Fprintln(os.Stderr, "load:", err)
 		os.Exit(3)
